@@ -27,7 +27,7 @@ impl Check for C10 {
     fn runs(&self, tier: Tier) -> u64 {
         match tier {
             Tier::Quick => 150_000,
-            Tier::Thorough => 8_000_000,
+            Tier::Thorough => 25_000_000,
         }
     }
     fn generate(&self, rng: &mut Rng, _index: u64, _tier: Tier) -> Scenario {
@@ -90,6 +90,15 @@ impl Check for C10 {
             }
             if ops.iter().any(|o| matches!(o, BOp::Batch(p) if p.len() > 1)) {
                 st.hit("probe:batch_of_several");
+            }
+            if ops.iter().any(|o| matches!(o, BOp::BatchLazy(p, _) if !p.is_empty())) {
+                st.hit("probe:batch_from_lazy_iterator");
+            }
+            if crate::builder_hist::plan(&ops)
+                .iter()
+                .any(|p| matches!(p, crate::scenario::Payload::SectionAdvanced(k, f) if *k > 0 && f.len > 0))
+            {
+                st.hit("probe:advanced_section_written");
             }
             if model.reserve_after_write {
                 st.hit("probe:reserve_after_write");
@@ -157,6 +166,8 @@ impl Check for C10 {
             "probe:shape_tlv_encoders_swapped",
             "probe:shape_reserve_sprinkled",
             "probe:batch_of_several",
+            "probe:batch_from_lazy_iterator",
+            "probe:advanced_section_written",
             "probe:reserve_after_write",
             "probe:build_without_any_write",
             "probe:construction_time_addresses",
